@@ -3,12 +3,14 @@ use crate::runner::Property;
 pub mod c03;
 pub mod c05;
 pub mod c08;
+pub mod c15;
 
 pub fn property(id: &str) -> Option<Property> {
     match id {
         "C03" => Some(c03::property()),
         "C05" => Some(c05::property()),
         "C08" => Some(c08::property()),
+        "C15" => Some(c15::property()),
         _ => None,
     }
 }
